@@ -98,7 +98,7 @@ impl KvBlobStore for MemKv {
     }
 }
 
-/// `fab,peer,min,max` of one persisted record (context tags 0..3 of `PersistedSubscription`)
+/// `fab,peer,min,max,id` of one persisted record (context tags 0..3 and 5 of `PersistedSubscription`)
 fn r_rec(data: &[u8]) -> String {
     let e = TLVElement::new(data);
     let f = |tag: u8| -> String {
@@ -108,7 +108,7 @@ fn r_rec(data: &[u8]) -> String {
             .map(|v| v.to_string())
             .unwrap_or_else(|_| "?".into())
     };
-    format!("{},{},{},{}", f(0), f(1), f(2), f(3))
+    format!("{},{},{},{},{}", f(0), f(1), f(2), f(3), f(5))
 }
 
 struct Runner<'a, 's, const N: usize> {
